@@ -179,6 +179,10 @@ func checkC10(c *runCtx) {
 	for _, role := range []string{"controlling", "controlled"} {
 		csExplore(c, "api-ownership-"+role, b-1, dl, nil)
 	}
+	// the gathering paths (GatherCandidates, the gather goroutines, Restart cancelling them) under the same discipline
+	for _, n := range []string{"gather-vs-restart", "gather-vs-gather", "gather-vs-gather-vs-restart", "gather-srflx-vs-restart"} {
+		csExplore(c, n, b, dl, nil)
+	}
 	c10racePass(c)
 }
 
